@@ -6,6 +6,7 @@ pub mod dirmodel;
 pub mod dump;
 pub mod gen;
 pub mod indep;
+pub mod isolate;
 pub mod packs;
 pub mod report;
 pub mod shard;
